@@ -53,7 +53,7 @@ func zzRead(a *api.ApiContext, obj interface{}) error {
 	}
 	switch in := obj.(type) {
 	case *CreateInput:
-		in.Size = zzPick("in.size", "", "8192", "-5", "junk", "99999999999999999999")
+		in.Size = zzPick("in.size", "", "8192", "-5", "-4096", "junk", "99999999999999999999")
 	case *RevertInput:
 		in.Name, in.Created = zzName("in.name"), zzPick("in.created", "", "t")
 	case *RebuildingInput:
